@@ -1,4 +1,269 @@
-use crate::core::{Ctx, Outcome};
-use serde_json::Value;
-pub fn run(_ctx: &Ctx) -> Outcome { unimplemented!() }
-pub fn replay(_ctx: &Ctx, _r: &Value) -> i32 { 2 }
+//! C18 — the tracker announce names the right torrent and client.
+//! The real `TrackerClient::run` is executed; the HTTP seam hands the harness the request that
+//! reqwest built (final URL) and answers it. Inputs are enumerated (E-ENUM), the oracle is the
+//! harness's own URL splitter and percent-decoder.
+
+use crate::core::{self, Ctx, Outcome};
+use crate::httpfake;
+use crate::refb::{self, V};
+use rdest::{Metainfo, TrackerClient};
+use serde_json::{json, Value};
+use std::cell::RefCell;
+use std::rc::Rc;
+
+pub const URLS: [&str; 5] = [
+    "http://tracker.example/announce",
+    "http://tracker.example:8080/a/b/announce",
+    "http://t.example/announce?key=1",
+    "http://t.example/announce?key=1&x=%20y",
+    "http://t.example/announce?",
+];
+pub const IDS: [&[u8; 20]; 5] = [
+    b"AAAAABBBBBCCCCCDDDDD",
+    b"00000000000000000000",
+    b"zzzzzzzzzzZZZZZZZZZZ",
+    b"a1B2c3D4e5F6g7H8i9J0",
+    b"9Z8y7X6w5V4u3T2s1R0q",
+];
+pub const LENGTHS: [u64; 3] = [0, 1, 1 << 40];
+
+#[derive(Clone, Debug)]
+pub struct Case {
+    pub hash: [u8; 20],
+    pub url: usize,
+    pub id: usize,
+    pub len: usize,
+}
+
+fn metainfo(url: &str, total: u64, hash: [u8; 20]) -> Metainfo {
+    let doc = refb::enc(&refb::dict(vec![
+        ("announce", refb::s(url)),
+        (
+            "info",
+            refb::dict(vec![
+                ("length", V::Int(total as i64)),
+                ("name", refb::s("n")),
+                ("piece length", V::Int(16384)),
+                ("pieces", V::Str(vec![7; 20])),
+            ]),
+        ),
+    ]));
+    Metainfo::from_bencode(&doc).expect("harness torrent must parse").verif_with_info_hash(hash)
+}
+
+/// application/x-www-form-urlencoded decoding: %XX and '+'.
+fn pct_decode(s: &str) -> Option<Vec<u8>> {
+    let b = s.as_bytes();
+    let mut out = vec![];
+    let mut i = 0;
+    while i < b.len() {
+        match b[i] {
+            b'%' => {
+                if i + 3 > b.len() {
+                    return None;
+                }
+                let h = std::str::from_utf8(&b[i + 1..i + 3]).ok()?;
+                out.push(u8::from_str_radix(h, 16).ok()?);
+                i += 3;
+            }
+            b'+' => {
+                out.push(b' ');
+                i += 1;
+            }
+            c => {
+                out.push(c);
+                i += 1;
+            }
+        }
+    }
+    Some(out)
+}
+
+fn split_url(u: &str) -> (String, Vec<(Vec<u8>, Vec<u8>)>) {
+    let (base, query) = match u.find('?') {
+        Some(p) => (&u[..p], &u[p + 1..]),
+        None => (u, ""),
+    };
+    let base = base.split('#').next().unwrap().to_string();
+    let mut pairs = vec![];
+    for part in query.split('&') {
+        if part.is_empty() {
+            continue;
+        }
+        let (k, v) = match part.find('=') {
+            Some(p) => (&part[..p], &part[p + 1..]),
+            None => (part, ""),
+        };
+        pairs.push((pct_decode(k).unwrap_or_else(|| k.as_bytes().to_vec()), pct_decode(v).unwrap_or_else(|| v.as_bytes().to_vec())));
+    }
+    (base, pairs)
+}
+
+pub fn run_case(rt: &tokio::runtime::Runtime, c: &Case) -> Result<String, String> {
+    let captured: Rc<RefCell<Vec<String>>> = Rc::new(RefCell::new(vec![]));
+    let cap2 = captured.clone();
+    rdest::verif::set_http(Some(Box::new(move |req: &reqwest::Request| {
+        cap2.borrow_mut().push(format!("{} {}", req.method(), req.url().as_str()));
+        httpfake::respond(200, b"d8:intervali900e5:peerslee".to_vec())
+    })));
+    let m = metainfo(URLS[c.url], LENGTHS[c.len], c.hash);
+    let id = *IDS[c.id];
+    let r = core::catch(|| {
+        rt.block_on(async {
+            let (tx, mut rx) = tokio::sync::mpsc::channel(64);
+            let mut tc = TrackerClient::new(&id, m, tx);
+            tc.run().await;
+            rx.try_recv().ok()
+        })
+    });
+    rdest::verif::set_http(None);
+    match r {
+        Err(p) => Err(format!("tracker client panicked: {}", p)),
+        Ok(_) => {
+            let cap = captured.borrow();
+            if cap.len() != 1 {
+                return Err(format!("{} requests sent for one successful announce", cap.len()));
+            }
+            Ok(cap[0].clone())
+        }
+    }
+}
+
+pub fn judge(c: &Case, request: &str) -> Option<(&'static str, String)> {
+    let (method, url) = request.split_once(' ').unwrap_or(("", request));
+    if method != "GET" {
+        return Some(("not-a-get", request.to_string()));
+    }
+    let (base, pairs) = split_url(url);
+    let (want_base, want_pairs) = split_url(URLS[c.url]);
+    let has_query = URLS[c.url].contains('?');
+    let tag = |s: &'static str, q: &'static str| if has_query { q } else { s };
+    if base != want_base {
+        return Some((tag("wrong-host-or-path", "announce-url-with-query-mangled"), format!("request {} does not go to {}", url, want_base)));
+    }
+    for (k, v) in &want_pairs {
+        if !pairs.iter().any(|(k2, v2)| k2 == k && v2 == v) {
+            return Some((
+                "announce-url-with-query-mangled",
+                format!("request {} lost the announce URL's parameter {}={}", url, core::show(k), core::show(v)),
+            ));
+        }
+    }
+    let hashes: Vec<&Vec<u8>> = pairs.iter().filter(|(k, _)| k == b"info_hash").map(|(_, v)| v).collect();
+    if hashes.len() != 1 || hashes[0].as_slice() != &c.hash[..] {
+        return Some((
+            tag("info-hash-parameter-wrong", "announce-url-with-query-mangled"),
+            format!("request {}: info_hash decodes to {:?}, torrent hash {}", url, hashes.iter().map(|h| core::hex(h)).collect::<Vec<_>>(), core::hex(&c.hash)),
+        ));
+    }
+    let one = |key: &[u8]| -> Option<Vec<u8>> {
+        let v: Vec<_> = pairs.iter().filter(|(k, _)| k == key).collect();
+        if v.len() == 1 {
+            Some(v[0].1.clone())
+        } else {
+            None
+        }
+    };
+    if one(b"peer_id").as_deref() != Some(&IDS[c.id][..]) {
+        return Some(("peer-id-parameter-wrong", format!("request {}", url)));
+    }
+    if one(b"port").as_deref() != Some(b"6881") {
+        return Some(("port-parameter-wrong", format!("request {}", url)));
+    }
+    if one(b"left") != Some(LENGTHS[c.len].to_string().into_bytes()) {
+        return Some(("left-parameter-wrong", format!("request {}", url)));
+    }
+    None
+}
+
+pub fn hashes(thorough: bool) -> Vec<[u8; 20]> {
+    let mut v = vec![];
+    let base: [u8; 20] = *b"\x01\x23\x45\x67\x89\xab\xcd\xef\x10\x32\x54\x76\x98\xba\xdc\xfe\x0f\x1e\x2d\x3c";
+    let positions: &[usize] = if thorough { &[0, 1, 5, 10, 18, 19] } else { &[0, 10, 19] };
+    for b in 0..=255u8 {
+        for &p in positions {
+            let mut h = base;
+            h[p] = b;
+            v.push(h);
+        }
+        v.push([b; 20]);
+    }
+    v
+}
+
+pub fn run(ctx: &Ctx) -> Outcome {
+    let hs = hashes(ctx.tier == core::Tier::Thorough);
+    let mut cases = vec![];
+    for h in &hs {
+        for url in 0..URLS.len() {
+            for id in 0..IDS.len() {
+                for len in 0..LENGTHS.len() {
+                    // quick: ids and lengths vary only with the first URL (they do not interact with the hash)
+                    if ctx.tier == core::Tier::Quick && url != 0 && (id != 0 || len != 1) {
+                        continue;
+                    }
+                    cases.push(Case { hash: *h, url, id, len });
+                }
+            }
+        }
+    }
+    let res = core::par_map(
+        &cases,
+        |_| {
+            core::set_quiet_panics(true);
+            httpfake::runtime()
+        },
+        |rt, _, c| match run_case(rt, c) {
+            Ok(req) => (Some(req.clone()), judge(c, &req)),
+            Err(e) => (None, Some(("tracker-client-failed", e))),
+        },
+    );
+    let mut distinct = std::collections::BTreeSet::new();
+    for (c, (req, v)) in cases.iter().zip(res.iter()) {
+        if let Some(r) = req {
+            distinct.insert(r.clone());
+        }
+        if let Some((class, summary)) = v {
+            ctx.violation(class, summary.clone(), json!({"hash": core::hex(&c.hash), "url": c.url, "id": c.id, "len": c.len, "announce": URLS[c.url]}));
+        }
+    }
+    let mut o = Outcome::new("exploration");
+    o.set("evaluations", json!(cases.len()));
+    o.set("distinct_nontrivial", json!(distinct.len()));
+    o.set("rule", json!("info-hash = a fixed 20-byte pattern with every byte value 0..=255 substituted at the listed positions, plus all-equal hashes; x 5 announce URLs (plain, port+path, with one / two query parameters, trailing '?') x 5 alphanumeric peer ids x total lengths {0,1,2^40} (quick: ids/lengths only vary for the first URL). Each case runs the real TrackerClient::run over the HTTP seam; distinct_nontrivial = number of distinct request URLs captured."));
+    o.set("hashes", json!(hs.len()));
+    let picks = ctx.seeded_pick(cases.len(), 4);
+    o.set("samples", Value::Array(picks.iter().map(|i| json!({"announce": URLS[cases[*i].url], "hash": core::hex(&cases[*i].hash), "request": res[*i].0})).collect()));
+    o.set("exhaustive", json!(true));
+    o.assume("the request is observed after reqwest built it (method + final URL), not on a socket; a loopback round trip of the unseamed path is part of the C19/C02 conformance replays");
+    o.assume("nothing is claimed for announce URLs, ids or lengths outside the listed ones");
+    o
+}
+
+pub fn replay(_ctx: &Ctx, r: &Value) -> i32 {
+    let hexs = r["hash"].as_str().unwrap();
+    let mut hash = [0u8; 20];
+    for i in 0..20 {
+        hash[i] = u8::from_str_radix(&hexs[2 * i..2 * i + 2], 16).unwrap();
+    }
+    let c = Case { hash, url: r["url"].as_u64().unwrap() as usize, id: r["id"].as_u64().unwrap() as usize, len: r["len"].as_u64().unwrap() as usize };
+    let rt = httpfake::runtime();
+    let req = run_case(&rt, &c);
+    println!("announce URL: {}\nrequest: {:?}", URLS[c.url], req);
+    match req {
+        Ok(req) => match judge(&c, &req) {
+            Some((class, s)) => {
+                println!("VIOLATION property=C18 replay=<this file>\n  class={} {}", class, s);
+                1
+            }
+            None => {
+                println!("holds for this case");
+                0
+            }
+        },
+        Err(e) => {
+            println!("VIOLATION property=C18 replay=<this file>\n  class=tracker-client-failed {}", e);
+            1
+        }
+    }
+}
